@@ -36,6 +36,7 @@ PROBES = [
     ("prefixFixed", "F6b", "package w\n\nvar F func(innerParam_0 int) func(_ string) int\n\nvar W = deriveUncurry(F)\n"),
     ("universeFixed", "universe", "package w\n\nvar F func(string int, b string) int\n\nvar W = deriveCurry(F)\n"),
     ("resultsFixed", "resultname", "package w\n\nvar F func(a int, b string) (f int)\n\nvar W = deriveCurry(F)\n"),
+    ("resultOuterFixed", "resultparam", "package w\n\nvar F func(a int) func(b string) (a int)\n\nvar W = deriveUncurry(F)\n"),
     ("zeroFixed", "F5", "package w\n\ntype NI int\ntype S struct{ A int }\n\n"
      "func F0(a int) (NI, error) { return 0, nil }\n"
      "func F1(a NI) (S, [2]int, NI, error) { return S{}, [2]int{}, 0, nil }\n\nvar W = deriveCompose(F0, F1)\n"),
@@ -50,9 +51,19 @@ PROBES = [
      "func main() {\n\tvar e0 Errs\n\tv, err := deriveJoin(F, e0)\n\tif called && v == 1 && err == nil {\n\t\tprintln(\"ok\")\n\t}\n}\n"),
     # toerror's own locals against parameters of the same names
     ("localsFixed", "locals", "package w\n\nvar F func(wait, success int) (int, bool)\n\nvar e error\nvar W = deriveToError(e, F)\n"),
+    # join's last stage returns values beside its error: fixed = zero values come back
+    ("passFixed", "passthrough", "package main\n\ntype E struct{}\n\nfunc (E) Error() string { return \"e\" }\n\nfunc F() (int, error) { return 5, E{} }\n\n"
+     "func main() {\n\tvar e0 error\n\tv, err := deriveJoin(F, e0)\n\tif v == 0 && err != nil {\n\t\tprintln(\"ok\")\n\t}\n}\n"),
+    # fmap's multi-result form next to a user's deriveTuple of assignable, not identical types
+    ("tupleFixed", "tupleassign", "package w\n\ntype MyInts []int\n\nvar T = deriveTuple(MyInts{1}, \"a\")\n\nfunc H(a int) ([]int, string) { return nil, \"\" }\nfunc G() (int, error) { return 0, nil }\n\nvar W, E = deriveFmap(H, G)\n"),
 ]
 # the repairs of these three are refusals (exit 1); a generator that serves the call correctly would count as well
-PROBE_MODE = {"errTypeFixed": "refuse-or-build", "errRecvFixed": "refuse", "typedNilFixed": "refuse-or-run"}
+PROBE_MODE = {"errTypeFixed": "refuse-or-build", "errRecvFixed": "refuse", "typedNilFixed": "refuse-or-run", "passFixed": "run"}
+
+# reproduced on the unchanged tree, reported to the coordinator, not yet listed in known_findings.json nor repaired:
+# printed as KNOWN-FINDING lines marked PENDING (exit 0). As soon as an entry with the witness_class exists (known or
+# fixed) the normal rules apply again.
+PENDING = {"passthrough", "resultparam", "tupleassign"}
 
 # informational probes (not model variants): defects outside the statements of C15/C16 that live in the same plugins
 INFO_PROBES = [
@@ -62,7 +73,8 @@ INFO_PROBES = [
 
 # reason reported by the model for a wrapper that does not compile -> finding id
 WHY_FINDING = {"unnamed": "F6", "shadow": "F6", "dup": "F6b", "void": "F25", "zero": "F5", "emptylhs": "F5",
-               "errtype": "errtype", "errrecv": "errrecv", "typednil": "typednil", "locals": "locals", "resultname": "resultname"}
+               "errtype": "errtype", "errrecv": "errrecv", "typednil": "typednil", "locals": "locals", "resultname": "resultname",
+               "passthrough": "passthrough", "resultparam": "resultparam", "tupleassign": "tupleassign"}
 WHY_TEXT = {
     "unnamed": "unnamed parameters: the wrapper body is printed as `f(, )` and does not compile",
     "shadow": "a parameter named like the generator's own binder (`f`, `err`) captures it: the wrapper does not compile",
@@ -73,6 +85,9 @@ WHY_TEXT = {
     "errtype": "(F50) a custom error type (named type with Error() string) as the last result of a stage is accepted, but the helper's parameter is printed with the predeclared error: the call does not compile (compose, traverse, fmap and join error forms)",
     "errrecv": "(F51) derive.IsError accepts a type whose Error method has a pointer receiver although it is used by value (does not implement error): exit 0, package does not compile",
     "typednil": "(F52) deriveJoin(f, e) with a nil value e of a custom error type: the helper receives a non-nil error, does not call f and returns zero values with a non-nil error",
+    "passthrough": "join's error form ends in `return f()`: when f itself fails, the values f returned beside its error are handed on instead of zero values (deriveJoin(f, err) and deriveJoin(deriveFmap(f, g)), every arity)",
+    "resultparam": "uncurry merges the outer parameter into the signature of the returned function: an inner RESULT named like the outer parameter (func(a int) func(b string) (a int)) is declared twice, does not compile",
+    "tupleassign": "fmap's multi-result error form asks for deriveTuple of f's result types and is given a user's deriveTuple whose types are only assignable (MyInts vs []int): `return deriveTuple(f(v)), nil` has the wrong function type, does not compile",
     "resultname": "a result named like a name the wrappers use (f, param_<i>, innerParam_<i>) is printed with its name in the innermost function literal and hides or duplicates it: the wrapper does not compile",
     "locals": "toerror declares its locals `out<i>, success := f(...)` in the scope of f's parameters: a parameter called success (not bool) or out<i> (not of result i's type), or all of them, makes the wrapper not compile",
     "zero": "derive.Zero prints `nil` as the zero value of a named basic type, struct or array: the helper does not compile",
@@ -226,6 +241,13 @@ def prepare(tier, seed, plugins):
         return info
 
 
+def all_findings():
+    try:
+        return json.load(open(os.path.join(common.VERIF, "known_findings.json"))).get("findings", [])
+    except (OSError, ValueError):
+        return []
+
+
 def known_ids():
     """Findings listed with status "known" in known_findings.json (never written by the checks), keyed by
     id. An entry may also name the witness classes it covers (`"witness_class": ["void", ...]`, the
@@ -329,7 +351,12 @@ def compare(rep, info, prop, opnames, only_pkg=None):
             wtext = WHY_TEXT["dup/prefixFixed"]
         text = "%s: %s (%d packages, %d ops; minimal witness: %s)" % (
             fid, wtext, len(dd["pkgs"]), dd["ops"], wit[:200])
-        if "class:" + why in known:
+        listed = any(why == w or why in (w if isinstance(w, list) else [w])
+                     for f_ in all_findings() for w in [f_.get("witness_class") or []])
+        if why in PENDING and not listed and fid not in known:
+            rep.known.append("PENDING " + text)
+            rep.cov.setdefault("pending_findings", []).append({"class": why, "packages": len(dd["pkgs"]), "ops": dd["ops"], "witness": wit})
+        elif "class:" + why in known:
             rep.known.append(text.replace(fid + ":", known["class:" + why]["id"] + ":", 1))
         elif fid in known and not known[fid].get("witness_class"):
             rep.known.append(text)
@@ -396,6 +423,7 @@ APPLICABLE = {
          ["uncurry_spec_prefix (only the user's own clash left: F6b)", "uncurry_spec_partial"]),
         (("unnamedFixed", "shadowFixed", "prefixFixed", "crossFixed", "voidFixed"), ["uncurry_compiles_fixed"], ["uncurry_compiles_partial"]),
         (("resultsFixed",), ["results_stripped"], []),
+        (("resultOuterFixed",), [], ["(uncurry: an inner result named like the outer parameter — class resultparam, modelled by effResultsUncurry/resultsOk)"]),
         (("unnamedFixed", "shadowFixed", "voidFixed"), ["plumb_compiles_fixed"],
          ["curry_compiles_partial", "flip_compiles_partial", "apply_compiles_partial", "curry_witnesses"]),
     ],
@@ -405,6 +433,7 @@ APPLICABLE = {
         (("unnamedFixed", "shadowFixed"), ["toerror_compiles_partial (side condition empty)"],
          ["toerror_compiles_partial", "toerror_witnesses"]),
         (("localsFixed",), [], ["toerror_compiles_partial (its hloc clause)"]),
+        (("passFixed",), ["joinE_spec_fixed", "bindE_spec_fixed"], ["joinE_spec_partial", "bindE_spec_partial", "joinE_passthrough_witness"]),
         (("errTypeFixed", "errRecvFixed", "typedNilFixed"), ["isError_fixed", "isError_sound_partial (side condition empty)"],
          ["isError_sound_partial", "isError_witnesses"]),
     ],
@@ -412,7 +441,7 @@ APPLICABLE = {
 ALWAYS = {
     "C15": ["rename_distinct", "tuple_spec"],  # rename_distinct is stated for every variant of `unusable`
     "C16": ["compose_spec", "compose_no_failure", "compose_first_failure", "compose_calls_in_order", "traverse_spec",
-            "fmapE_spec", "fmapE_fn_spec", "fmapE_fn_evaluates_nothing", "join_of_fmap_fn", "joinE_spec", "bindE_spec",
+            "fmapE_spec", "fmapE_fn_spec", "fmapE_fn_evaluates_nothing", "join_of_fmap_fn",
             "toerror_spec"],
 }
 
